@@ -55,7 +55,11 @@ func (sc *scenario) newNode(prio int, triggering bool) *node {
 }
 
 func (sc *scenario) addRule(n *node, prio int, fail bool) *rule {
-	r := &rule{name: fmt.Sprintf("r%dn%d", n.id, len(n.rules)), prio: prio, fail: fail, owner: n}
+	// the letter makes the lexical order of rule names independent of the
+	// order in which the rules are added and of their priorities
+	k := len(n.rules)
+	letter := 'a' + rune((n.id*7+k*11+k*k*3+5)%26)
+	r := &rule{name: fmt.Sprintf("r%c%dn%d", letter, n.id, k), prio: prio, fail: fail, owner: n}
 	n.rules = append(n.rules, r)
 	return r
 }
